@@ -35,4 +35,6 @@ Proof. destruct i as [A B]. simpl. intros HA HB HdA HdB. unfold C06_holds, model
 
 Lemma inclass_C06_wf i : inclass_C06 i = true ->
   wf_schemab (fst i) = true /\ wf_schemab (snd i) = true /\ defaults_ok (fst i) = true /\ defaults_ok (snd i) = true.
-Proof. unfold inclass_C06. rewrite !andb_true_iff. tauto. Qed.
+Proof. unfold inclass_C06, inclass_C06_core. rewrite !andb_true_iff. tauto. Qed.
+Lemma inclass_C06_core_wf i : inclass_C06_core i = true -> wf_schemab (fst i) = true /\ wf_schemab (snd i) = true.
+Proof. unfold inclass_C06_core. rewrite !andb_true_iff. tauto. Qed.
